@@ -635,6 +635,30 @@ func (e *Env) call(n ECall) TVal {
 		for k, v := range e.oldBinds {
 			sub.binds[k] = v
 		}
+		if e.fr != nil && len(e.fr.fn.FreeVars) > 0 {
+			// captured variables are locations: old(x) is their content in the old state
+			sub.params = make(map[string]TVal, len(e.params))
+			for k, v := range e.params {
+				sub.params[k] = v
+			}
+			for i, fv := range e.fr.fn.FreeVars {
+				if _, bound := e.params[fv.Name()]; !bound || i >= len(e.fr.free) || e.fr.free[i].K != VPtr {
+					continue
+				}
+				if p := e.fr.free[i].P; p.Kind == PCell {
+					if _, ok := e.old.cells[p.Cell]; !ok && !p.Cell.boxed {
+						continue
+					}
+				}
+				v := e.ex.load(e.old, e.fr.free[i].P)
+				et := fv.Type().(*types.Pointer).Elem()
+				if v.K == VTerm {
+					sub.params[fv.Name()] = TVal{T: v.T, Ty: et}
+				} else if v.K == VPtr {
+					sub.params[fv.Name()] = TVal{T: e.ex.materialize(e.old, v.P), Ty: et}
+				}
+			}
+		}
 		r := sub.tr(n.Args[0])
 		e.errs = append(e.errs, sub.errs[len(e.errs):]...)
 		if !sub.ground {
@@ -739,6 +763,17 @@ func (e *Env) call(n ECall) TVal {
 		}
 		s, k := e.tr(n.Args[0]), e.tr(n.Args[1])
 		return TVal{T: Term{app("sq_snoc_"+s.T.Sort, s.T.S, k.T.S), s.T.Sort}, Ty: s.Ty}
+	case "concat":
+		if !argc(2) {
+			return TVal{}
+		}
+		{
+			s, k := e.tr(n.Args[0]), e.tr(n.Args[1])
+			if s.T.Sort != k.T.Sort || !strings.HasPrefix(s.T.Sort, "Seq_") {
+				return e.errf("concat of %s and %s", s.T.Sort, k.T.Sort)
+			}
+			return TVal{T: Term{app("sq_concat_"+s.T.Sort, s.T.S, k.T.S), s.T.Sort}, Ty: s.Ty}
+		}
 	case "rev":
 		if !argc(1) {
 			return TVal{}
@@ -972,6 +1007,11 @@ func (e *Env) call(n ECall) TVal {
 		} else if fd.Result == "real" {
 			rs = SReal
 		}
+		for _, h := range sortedKeys(fi.heaps) {
+			if cur := vc.heapGet(e.st, h, fi.heaps[h]); cur.S != h+"_init" {
+				return e.errf("fold %s reads heap component %s, which differs from the entry heap in this state", n.Fun, h)
+			}
+		}
 		return TVal{T: Term{app("fold_"+fd.Name, as...), rs}}
 	}
 	if dd, ok := vc.prog.contracts.Defs[n.Fun]; ok {
@@ -1019,6 +1059,7 @@ type foldInst struct {
 	ptypes    []types.Type
 	axiomText string
 	err       error
+	heaps     map[string]string // heap components the body reads (in the function's entry heap)
 }
 
 func (e *Env) foldInst(fd *FoldDecl) *foldInst {
@@ -1089,7 +1130,27 @@ func (fi *foldInst) build(e *Env) {
 		sub.binds[p.Name] = TVal{T: Term{fmt.Sprintf("p%d", i), psorts[i]}, Ty: fi.ptypes[i+1]}
 	}
 	sub.errs = nil
+	// a body that reads the heap reads the entry heap of the function under verification; an application
+	// of the fold in a state whose heap differs in those components is rejected (see foldHeapCheck)
+	sub.st = NewState()
+	sub.old = nil
+	prevRec := vc.recHeaps
+	vc.recHeaps = map[string]string{}
 	body := sub.tr(fd.Body)
+	fi.heaps = vc.recHeaps
+	vc.recHeaps = prevRec
+	for h, srt := range fi.heaps {
+		if prevRec != nil {
+			prevRec[h] = srt
+		}
+	}
+	for _, inner := range vc.folds {
+		if inner != fi && inner.heaps != nil && strings.Contains(body.T.S, "fold_"+inner.fd.Name+" ") {
+			for h, srt := range inner.heaps {
+				fi.heaps[h] = srt
+			}
+		}
+	}
 	if len(sub.errs) > 0 {
 		vc.fatalf("fold %s body: %s", fd.Name, strings.Join(sub.errs, "; "))
 		return
